@@ -17,6 +17,16 @@ CHECKS = {
             "For every shape within the depth bound the equality result==meaning is decided for ALL real assignments (unsat), for auto-evaluation, doit() and d/dt; all slot assignments of 4 symbols realise all id() orders. Shapes beyond the bound are outside the claim.",
             "Trusted: z3 nlsat, SymPy core arithmetic, vlib/vecsem.py component semantics. A model that does not reproduce on the real code is counted inconclusive (SPURIOUS).",
             "3.14"),
+    "C20": ("S", "other",
+            "exact rational arithmetic in z3 over the real constants table with pi quantified over a rational interval; finite table enumerated completely",
+            "Finite table decided exhaustively: dimension vectors, SI values within stated tolerance of CODATA/IAU references, and the seven identities, for every pi in a 1e-14-wide interval.",
+            "Trusted: refs/constants.json reference values, sympy dimsys_SI, z3. Constants without a reference entry are reported inconclusive.",
+            "3.20"),
+    "C04": ("L", "other",
+            "lifted native execution of the real gate/decorators over symbolic scale factors and 8-exponent dimension vectors (z3 Reals), per-path assertion + path-cover check by z3; catalogue binding by solver-chosen wrong dimensions replayed on the real functions",
+            "Parts A/B: for every path of the real assert_equivalent_dimension / validate_input / validate_output / QuantityVector.__init__ z3 decides that the outcome equals the gate predicate of the statement for ALL scale factors and ALL real exponent vectors, and that the explored paths cover the input space. Part C is per-function binding evidence (one solver-chosen wrong dimension per guarded parameter, executed concretely).",
+            "Trusted: z3, the listed stubs of vlib/lift.py (dimsys_SI predicates, is_any_dimension/is_number on symbolic scalars), sympy's get_dimensional_dependencies for concrete dimensions. Reals stand in for floats; a float 0.0 is covered by a concrete enumeration.",
+            "3.4"),
 }
 
 NOT_APPLICABLE = {
